@@ -140,6 +140,60 @@ def one_tree(job):
         shutil.rmtree(cwd, ignore_errors=True)
 
 
+
+def _naming(job):
+    segs = list(job)
+    vlib.use_repo()
+    root = tempfile.mkdtemp(prefix="verif_name_")
+    cwd = tempfile.mkdtemp(prefix="verif_cwd_")
+    try:
+        fname = ".".join(segs)
+        path = os.path.join(root, fname)
+        open(path, "w").write(".a{color:#777777;background-color:#ffffff}\n")
+        before = clilib.listing(root)
+        clilib.run_cli(path, [], cwd)
+        after = clilib.listing(root)
+        new = sorted(k for k in after if k not in before)
+        out = new[0].split(".") if len(new) == 1 else ([] if not new else ["<several>"] + new)
+        # repeated directory runs: the first may legitimately process inputs not yet processed; from then on nothing new
+        clilib.run_cli(root, [], cwd)
+        l1 = clilib.listing(root)
+        clilib.run_cli(root, [], cwd)
+        clilib.run_cli(root, [], cwd)
+        l2 = clilib.listing(root)
+        rerun_new = sorted(k for k in l2 if k not in l1)
+        return {"name": segs, "out": out, "inputSame": after.get(fname) == before.get(fname) and l2.get(fname) == before.get(fname),
+                "rerunNew": rerun_new}
+    finally:
+        shutil.rmtree(root, ignore_errors=True)
+        shutil.rmtree(cwd, ignore_errors=True)
+
+
+def naming(rep, t):
+    rep.add_model("MC_Naming(MaxSeg=4)", vlib.check_model("Naming", "MC_Naming.cfg", workers=4), "output name never re-consumed, never the input name")
+    r = vlib.check_model("Naming", "MC_Naming_regress.cfg", workers=4)
+    if r.ok or "is violated" not in (r.error + r.stdout):
+        raise vlib.MachineryError("regression configuration MC_Naming_regress is expected to be rejected by TLC but was not")
+    rg, names = vlib.tlc_enumerate("Naming", "MC_Naming.cfg", "name", workers=2)
+    names = sorted({tuple(n) for n in names if len(n) >= 2 and n[-1] == "css"})
+    if t == "quick":
+        names = [n for n in names if len(n) <= 3]
+    evs = vlib.pool_map(_naming, names, chunksize=2)
+    traces = [evs[i:i + 16] for i in range(0, len(evs), 16)]
+    cfg = "SPECIFICATION TSpec\nCONSTANTS MaxSeg = 4\n JoinAllSuffixes = FALSE\nPOSTCONDITION KitPost\nCHECK_DEADLOCK FALSE\n"
+    agg = vlib.validate_traces("TrNaming", traces, cfg=cfg, shards=2)
+    rep.add_traces(agg, len(traces))
+    rep.evaluations += len(evs)
+    rep.extra["file_names_enumerated_by_tlc_and_replayed"] = len(evs)
+    rep.sample({"naming_event": evs[len(evs) // 2]})
+    for b in agg["bad"]:
+        rep.drift += sum(1 for x in b["incon"] if x.startswith("D_"))
+        mine = [f for f in b["fails"] if f.startswith(("C18_", "C09_"))]
+        if mine:
+            rep.violation("/".join(mine), {"events": traces[b["tid"]],
+                          "reproduce": "create a file with the dotted name, run `cm-colors <file>`, then `cm-colors <dir>` three times"})
+
+
 def main():
     t = vlib.tier()
     rnd = random.Random(vlib.seed() * 2147483629 + 18)
@@ -180,6 +234,7 @@ def main():
             rep.violation("/".join(mine), {"tree": list(jobs[tid][0]), "paths": res[tid][1]["paths"], "args": res[tid][1]["args"],
                           "runs": behs[tid], "output": res[tid][1]["runs"],
                           "reproduce": "materialise the tree (kinds per slot, see harness/c18.py content()), run `cm-colors <dir>` twice and `cm-colors <file>` per valid file alone"})
+    naming(rep, t)
     return rep.finish()
 
 
